@@ -49,6 +49,9 @@ var gpool = []gpat{
 	{"/p-{a}-{b:any}.h", []map[string]string{w("a", "7q", "b", "8Q")}, 1},
 	{"/p/{id:any}aa", []map[string]string{w("id", "7q")}, 1},
 	{"/p/{-id:\\d+}.z", []map[string]string{w("id", "77")}, 1},
+	{"/p/{id:\\d+}.z", []map[string]string{w("id", "77")}, 1},
+	{"/p/{id:\\d+|new}/k", []map[string]string{w("id", "77")}, 1},
+	{"/p/{v:even}aa", []map[string]string{w("v", "7q")}, 1},
 	{"/p/{n:\\d*}", []map[string]string{w("n", "77")}, 1},
 	{"/posts/author", []map[string]string{w()}, 2},
 	{"/posts/abc", []map[string]string{w()}, 2},
@@ -71,7 +74,7 @@ var gpool = []gpat{
 	{"{top}/r", []map[string]string{w("top", "7q")}, 4},
 }
 
-var gIcpt = map[string]string{"digit": "digit", "word": "word", "any": "any"}
+var gIcpt = map[string]string{"digit": "digit", "word": "word", "any": "any", "even": "even"}
 
 func substPat(p string, ps map[string]string) string {
 	var b strings.Builder
@@ -238,7 +241,7 @@ func genRouter(r *rand.Rand, n int, mode string, out *bufio.Writer) {
 
 // ---- C05: arbitrary and grammar-mutated PATTERN strings through CheckSyntax, URL, Handle (+ a few requests)
 var patAtoms = []string{"/", "/u", "/p-", "{", "}", ":", "-", "{id}", "{id:\\d+}", "{-id}", "{id:digit}", "{:x}", "{}", "{a}{b}", "{id:[}", "{id:(}", "{id:\\}",
-	"{\u540d}", "{id:.+}", "x", ".", "*", "", "{id", "id}", "}{", "{{", "}}", "{a:b:c}", "{a-b}", "{1x:\\d}", "\\", "%", " ", "{id:\\d{2}}", "{id:a|b}", "{id:a)|(b}", "{id:a)(b}", "{id:x)|(}", "{id:(?i)b}", "{:}", "{-}", "{-:}", "{-:x}", "{:}x", "{a:}", "{a}:", "{a}:{b}", ":{a}", "{a:b}:"}
+	"{\u540d}", "{id:.+}", "x", ".", "*", "", "{id", "id}", "}{", "{{", "}}", "{a:b:c}", "{a-b}", "{1x:\\d}", "\\", "%", " ", "{id:\\d{2}}", "{id:a|b}", "{id:a)|(b}", "{id:a)(b}", "{id:x)|(}", "{id:(?i)b}", "{:}", "{-}", "{-:}", "{-:x}", "{:}x", "{a:}", "{a}:", "{a}:{b}", ":{a}", "{a:b}:", "{a}/{-a}", "{-a}/{a}", "{-a}x{a:\\d+}", "{-a}/{-a}"}
 
 func randPattern(r *rand.Rand) string {
 	switch r.IntN(10) {
